@@ -14,9 +14,13 @@ An invocation is abstracted to what `main` looks at:
 `main` follows the control flow of the Python function statement by statement; every
 `errors += 1` of the source is an increment here.  Two variants:
 
-* `Variant.asis`  — the code as it is in the repository;
-* `Variant.fixed` — the code with `proposed_fixes/C26-1.diff` applied (failures of
-  `translate` counted, `-t casadi` without a matching file counted, undecodable file counted).
+* `Variant.fixed` — **the code as it is in the repository** (since commit c313463, which is
+  `proposed_fixes/C26-1.diff`: failures of `translate` counted, `-t casadi` without a matching
+  file counted, undecodable file counted).  This is the variant the driver evaluates and the
+  correspondence compares with.
+* `Variant.old`  — the code before that commit, kept so that the theorems `old_*` of
+  `Props/C26.lean` state exactly what each of the three changes is needed for (findings
+  C26-F1 … F4, fixed).
 
 Exceptions that escape `main` are an explicit outcome (`Outcome.raised`), never defaulted.
 -/
@@ -38,7 +42,7 @@ inductive ParseOutcome | ok | error | raise
 inductive SympyOutcome | ok | retFalse | raise
   deriving DecidableEq, Repr
 
-inductive Variant | asis | fixed
+inductive Variant | old | fixed
   deriving DecidableEq, Repr
 
 structure FileInfo where
@@ -100,7 +104,7 @@ def parseAll (v : Variant) : List FileInfo → Option Nat
     | .error => (parseAll v fs).map (· + 1)
     | .raise =>
       match v with
-      | .asis => none
+      | .old => none
       | .fixed => (parseAll v fs).map (· + 1)
 
 /-- The flatten-only arm of the model loop (`errors += 1` in the `except`). -/
@@ -108,16 +112,16 @@ def flattenLoop : List ModelReq → Nat → Nat
   | [], e => e
   | m :: ms, e => flattenLoop ms (if m.flattenOk then e else e + 1)
 
-/-- The `-t sympy` arm of the model loop.  As-is: the value of `translate` is dropped and
+/-- The `-t sympy` arm of the model loop.  Before c313463: the value of `translate` is dropped and
     its exceptions are not caught. -/
 def sympyLoop (v : Variant) : List ModelReq → Nat → List String → Outcome
   | [], e, w => .ret e w
   | m :: ms, e, w =>
     match m.sympy, v with
     | .ok, _ => sympyLoop v ms e (w ++ [m.name])
-    | .retFalse, .asis => sympyLoop v ms e w
+    | .retFalse, .old => sympyLoop v ms e w
     | .retFalse, .fixed => sympyLoop v ms (e + 1) w
-    | .raise, .asis => .raised
+    | .raise, .old => .raised
     | .raise, .fixed => sympyLoop v ms (e + 1) w
 
 /-- The scan `for path in modelica_files: if path.stem == model: …` of the casadi arm:
@@ -138,7 +142,7 @@ def casadiStep (v : Variant) (m : ModelReq) (r : Option Nat × Bool) (e : Nat) :
   match r with
   | (none, amb) =>
     match v with
-    | .asis => if amb then e + 1 else e     -- no match: logged, not counted
+    | .old => if amb then e + 1 else e     -- no match: logged, not counted
     | .fixed => e + 1
   | (some d, _) => if casadiOk m d then e else e + 1
 
